@@ -15,10 +15,10 @@ VARIABLES iid, tree, hist, cid
 
 S == Small(<<1, 2>>)
 L == Small(<<3, 4, 5, 6, 7>>)
-M == Small(<<8, 9, 10>>)
+M == Small(<<9>>)                 \* one byte
 
 Base == (<<>> :> Dir) @@ (<<"b">> :> Dir) @@ (<<"b", "a">> :> File(L)) @@ (<<"b", "b">> :> Dir)
-        @@ (<<"b", "b", "c">> :> File(S)) @@ (<<"c">> :> File(M))
+        @@ (<<"b", "b", "c">> :> File(Empty)) @@ (<<"c">> :> File(M))
 WithA(n) == Put(Base, <<"a">>, n)
 Inits == <<
     EmptyTree,
